@@ -1,7 +1,7 @@
 (** C10 proofs, writer side: OffsetFormat::format and write_rfc3339 produce the string the grammar
     generator [render] gives for the wall-clock fields of the value. *)
 From Coq Require Import ZArith List Bool Lia ZifyBool String.
-From V Require Import Base.Int Base.IntLemmas Base.IO Base.Utf8 Gen.ScanTables Model.Scan Model.DateTime Model.C10
+From V Require Import Base.Int Base.IntLemmas Base.Lift Base.IO Base.Utf8 Gen.ScanTables Model.Scan Model.DateTime Model.C10
   Spec.Gregorian Spec.Rfc3339 Proofs.Utf8 Proofs.Scan Proofs.C10.
 From V Require Model.Date Model.Time.
 Import ListNotations.
@@ -61,3 +61,210 @@ Proof.
   replace (a / 60 / 60) with (a / 3600) by lia.
   destruct (off <? 0); reflexivity.
 Qed.
+
+(** fraction digits: core::fmt "{:0w$}" against the spec's digit list *)
+Lemma low_digits_spec k v : low_digits k v = map dig (digits_of k v).
+Proof.
+  revert v. induction k as [|k IH]; intros v; [reflexivity|].
+  cbn [low_digits digits_of]. rewrite map_app, IH. reflexivity.
+Qed.
+Lemma fmt_zero_pad_small w v : 0 <= w -> v < 10 ^ w -> fmt_zero_pad w v = map dig (digits_of (Z.to_nat w) v).
+Proof. intros Hw Hv. unfold fmt_zero_pad. replace (v <? 10 ^ w) with true by lia. apply low_digits_spec. Qed.
+Lemma digits_of_nonempty k v : (0 < k)%nat -> digits_of k v <> [].
+Proof. destruct k; [lia|]. intros _. cbn [digits_of]. destruct (digits_of k (v / 10)); discriminate. Qed.
+Lemma render_frac_digits k v : (0 < k)%nat -> render_frac (digits_of k v) = 46 :: map dig (digits_of k v).
+Proof. intros Hk. unfold render_frac. pose proof (digits_of_nonempty k v Hk). destruct (digits_of k v); [contradiction|reflexivity]. Qed.
+
+(** month and day of an ordinal stay in their two-digit ranges (complete enumeration) *)
+Definition md_ok (i : Z) : bool :=
+  let leap := i <? 400 in let o := i mod 400 in
+  if (1 <=? o) && (o <=? (if leap then 366 else 365)) then
+    let '(m, d) := md_of_ordinal leap o in (1 <=? m) && (m <=? 12) && (1 <=? d) && (d <=? 31)
+    && (d <=? days_in_month leap m) && (ordinal_of_md leap m d =? o)
+  else true.
+Lemma md_sweep : forall_range md_ok 0 800 = true.
+Proof. vm_compute. reflexivity. Qed.
+Lemma md_range (leap : bool) o : 1 <= o <= (if leap then 366 else 365) ->
+  1 <= fst (md_of_ordinal leap o) <= 12 /\ 1 <= snd (md_of_ordinal leap o) <= 31 /\
+  snd (md_of_ordinal leap o) <= days_in_month leap (fst (md_of_ordinal leap o)) /\
+  ordinal_of_md leap (fst (md_of_ordinal leap o)) (snd (md_of_ordinal leap o)) = o.
+Proof.
+  intros Ho. pose proof (forall_range_spec _ _ _ md_sweep (if leap then o else o + 400) ltac:(destruct leap; lia)) as S.
+  unfold md_ok in S.
+  assert (E1 : ((if leap then o else o + 400) <? 400) = leap) by (destruct leap; lia).
+  assert (E2 : (if leap then o else o + 400) mod 400 = o) by (destruct leap; lia).
+  rewrite E1, E2 in S. replace ((1 <=? o) && (o <=? (if leap then 366 else 365))) with true in S by (destruct leap; lia).
+  destruct (md_of_ordinal leap o) as [m d]. cbn [fst snd].
+  repeat (apply andb_prop in S; destruct S as [S ?]). lia.
+Qed.
+Lemma four_split n : 0 <= n <= 9999 -> two (n / 100) ++ two (n mod 100) = four n.
+Proof.
+  intros H. unfold two, four, dig. cbn [app].
+  replace (n / 100 / 10) with (n / 1000) by lia. replace (n / 100 mod 10) with (n / 100 mod 10) by lia.
+  replace (n mod 100 / 10) with (n / 10 mod 10) by lia. replace (n mod 100 mod 10) with (n mod 10) by lia. reflexivity.
+Qed.
+
+From V Require Import Proofs.C08Days.
+
+Lemma year_day_range n : 0 <= year_of_dn n <= 9999 -> -365 <= n <= 3652059.
+Proof.
+  intros Hy. destruct (yo_of_dn_valid n) as [Hv Hd]. fold (year_of_dn n) in *. fold (ordinal_of_dn n) in *.
+  set (y := year_of_dn n) in *. set (o := ordinal_of_dn n) in *.
+  unfold valid_yo in Hv. unfold dn_of_yo in Hd.
+  pose proof (dby_succ y). pose proof (dby_mono 0 y ltac:(lia)). pose proof (dby_mono (y + 1) 10000 ltac:(lia)).
+  change (days_before_year 0) with (-366) in *. change (days_before_year 10000) with 3652059 in *. lia.
+Qed.
+
+(* the SecondsFormat match of write_rfc3339 *)
+Definition ws_expr (w3 : bytes) (sf nano : Z) : R (option bytes) :=
+  if sf =? 0 then Val (Some w3)
+  else if sf =? 1 then Val (write_frac w3 W3_MILLIS_WIDTH (Z.quot nano W3_MILLIS_DIV))
+  else if sf =? 2 then Val (write_frac w3 W3_MICROS_WIDTH (Z.quot nano W3_MICROS_DIV))
+  else if sf =? 3 then Val (write_frac w3 W3_NANOS_WIDTH nano)
+  else if sf =? 4 then
+    if nano =? 0 then Val (Some w3)
+    else if Z.rem nano W3_AUTO_MILLIS_MOD =? 0 then Val (write_frac w3 W3_AUTO_MILLIS_WIDTH (Z.quot nano W3_AUTO_MILLIS_DIV))
+    else if Z.rem nano W3_AUTO_MICROS_MOD =? 0 then Val (write_frac w3 W3_AUTO_MICROS_WIDTH (Z.quot nano W3_AUTO_MICROS_DIV))
+    else Val (write_frac w3 W3_NANOS_WIDTH nano)
+  else Panic.
+Lemma write_frac_ok w k v : (0 < k)%nat -> 0 <= v < 10 ^ Z.of_nat k ->
+  write_frac w (Z.of_nat k) v = Some (w ++ render_frac (digits_of k v)).
+Proof.
+  intros Hk Hv. unfold write_frac. rewrite fmt_zero_pad_small by lia. rewrite Nat2Z.id.
+  rewrite render_frac_digits by exact Hk. reflexivity.
+Qed.
+Lemma ws_expr_ok w sf sub : 0 <= sub < 1000000000 -> 0 <= sf <= 4 ->
+  ws_expr w sf sub = Val (Some (w ++ render_frac (frac_shown (frac_digits sf sub) sub))).
+Proof.
+  intros Hs Hsf. unfold ws_expr, frac_digits, frac_shown.
+  change W3_MILLIS_WIDTH with (Z.of_nat 3). change W3_MICROS_WIDTH with (Z.of_nat 6). change W3_NANOS_WIDTH with (Z.of_nat 9).
+  change W3_AUTO_MILLIS_WIDTH with (Z.of_nat 3). change W3_AUTO_MICROS_WIDTH with (Z.of_nat 6).
+  change W3_MILLIS_DIV with 1000000. change W3_MICROS_DIV with 1000. change W3_AUTO_MILLIS_DIV with 1000000.
+  change W3_AUTO_MICROS_DIV with 1000. change W3_AUTO_MILLIS_MOD with 1000000. change W3_AUTO_MICROS_MOD with 1000.
+  rewrite !Z.quot_div_nonneg, !Z.rem_mod_nonneg by lia.
+  destruct (sf =? 0) eqn:E0. { cbn [Z.to_nat digits_of render_frac]. rewrite app_nil_r. reflexivity. }
+  destruct (sf =? 1) eqn:E1.
+  { rewrite write_frac_ok by (change (10 ^ Z.of_nat 3) with 1000; lia). change (10 ^ (9 - 3)) with 1000000. reflexivity. }
+  destruct (sf =? 2) eqn:E2.
+  { rewrite write_frac_ok by (change (10 ^ Z.of_nat 6) with 1000000; lia). change (10 ^ (9 - 6)) with 1000. reflexivity. }
+  destruct (sf =? 3) eqn:E3.
+  { rewrite write_frac_ok by (change (10 ^ Z.of_nat 9) with 1000000000; lia). change (10 ^ (9 - 9)) with 1. rewrite Z.div_1_r. reflexivity. }
+  replace (sf =? 4) with true by lia.
+  destruct (sub =? 0) eqn:Es. { cbn [Z.to_nat digits_of render_frac]. rewrite app_nil_r. reflexivity. }
+  destruct (sub mod 1000000 =? 0) eqn:Em.
+  { rewrite write_frac_ok by (change (10 ^ Z.of_nat 3) with 1000; lia). change (10 ^ (9 - 3)) with 1000000. reflexivity. }
+  destruct (sub mod 1000 =? 0) eqn:Eu.
+  { rewrite write_frac_ok by (change (10 ^ Z.of_nat 6) with 1000000; lia). change (10 ^ (9 - 6)) with 1000. reflexivity. }
+  rewrite write_frac_ok by (change (10 ^ Z.of_nat 9) with 1000000000; lia). change (10 ^ (9 - 9)) with 1. rewrite Z.div_1_r. reflexivity.
+Qed.
+
+Section Writer.
+  Variable good : Z -> Z -> Prop.
+  Hypothesis DF : date_facts good.
+
+  (** the local (wall-clock) NaiveDateTime of a value *)
+  Lemma naive_local_ok y o dt secs frac off :
+    valid_yo y o = true -> good dt (dn_of_yo y o) ->
+    0 <= secs < 86400 -> -86400 < off < 86400 ->
+    0 <= year_of_dn (wall_dn y o secs off) <= 9999 ->
+    exists dl, naive_local (mk_dtz (mk_ndt dt (Time.mk_time secs frac)) off)
+               = Val (mk_ndt dl (Time.mk_time (wall_secs secs off) frac))
+               /\ good dl (wall_dn y o secs off).
+  Proof.
+    intros Hv Hg Hs Ho Hy. pose proof (year_day_range _ Hy) as Hr.
+    unfold wall_dn, wall_secs in *. set (n := dn_of_yo y o) in *.
+    unfold naive_local, ndt_checked_add_offset, Time.overflowing_add_offset.
+    cbn [dz_utc dz_off nd_date nd_time Time.tsecs Time.tfrac].
+    rewrite as_i32_id by (unfold in_i32, in_range, i32_min, i32_max; lia).
+    unfold add_i32. rewrite chk_in by (unfold in_i32, in_range, i32_min, i32_max; lia). cbn [bind].
+    rewrite div_euclid_pos, rem_euclid_pos by lia.
+    assert (Hq : -1 <= (secs + off) / 86400 <= 1) by lia.
+    rewrite chk_in by (unfold in_i32, in_range, i32_min, i32_max; lia). cbn [bind].
+    replace (in_i32 ((secs + off) / 86400)) with true by (unfold in_i32, in_range, i32_min, i32_max; lia). cbn [bind].
+    rewrite as_u32_id by (unfold in_u32, in_range, u32_max; lia).
+    unfold shift_date_checked.
+    destruct ((secs + off) / 86400 =? -1) eqn:Em1.
+    - destruct (df_pred good DF dt n Hg) as (dl & Hp & Hgl); [unfold DAY_LO, DAY_HI; lia|].
+      rewrite Hp. cbn [obind bind unwrap_r unwrap]. exists dl. split; [reflexivity|].
+      replace (n + (secs + off) / 86400) with (n - 1) by lia. exact Hgl.
+    - destruct ((secs + off) / 86400 =? 1) eqn:E1.
+      + destruct (df_succ good DF dt n Hg) as (dl & Hp & Hgl); [unfold DAY_LO, DAY_HI; lia|].
+        rewrite Hp. cbn [obind bind unwrap_r unwrap]. exists dl. split; [reflexivity|].
+        replace (n + (secs + off) / 86400) with (n + 1) by lia. exact Hgl.
+      + cbn [obind bind unwrap_r unwrap]. exists dt. split; [reflexivity|].
+        replace (n + (secs + off) / 86400) with n by lia. exact Hg.
+  Qed.
+
+  (** the fields a conforming writer shows, from the wall-clock day number and second of day *)
+  Definition fields_wall (wn ls frac off secform : Z) (use_z : bool) : fields :=
+    let '(ly, lo) := yo_of_dn wn in
+    let '(lm, ld) := md_of_ordinal (is_leap ly) lo in
+    let leap := 1000000000 <=? frac in
+    let sub := if leap then frac - 1000000000 else frac in
+    let nd := frac_digits secform sub in
+    mk_fields ly lm ld 84 (ls / 3600) (ls / 60 mod 60) (ls mod 60 + (if leap then 1 else 0))
+      (frac_shown nd sub)
+      (if use_z && (off =? 0) then Zulu 90
+       else Numeric (if off <? 0 then 1 else 0) (Z.abs off / 3600) (Z.abs off / 60 mod 60)).
+  Lemma fields_of_wall y o secs frac off sf uz :
+    fields_of y o secs frac off sf uz = fields_wall (wall_dn y o secs off) (wall_secs secs off) frac off sf uz.
+  Proof. reflexivity. Qed.
+
+  Lemma write_rfc3339_ok dl wn ls frac off sf uz :
+    good dl wn -> 0 <= year_of_dn wn <= 9999 ->
+    0 <= ls < 86400 -> 0 <= frac < 2000000000 -> (1000000000 <= frac -> ls mod 60 = 59) ->
+    -86400 < off < 86400 -> off mod 60 = 0 -> 0 <= sf <= 4 ->
+    write_rfc3339 [] (mk_ndt dl (Time.mk_time ls frac)) off sf uz
+    = Val (Some (render (fields_wall wn ls frac off sf uz))).
+  Proof.
+    intros Hg Hy Hls Hfr Hleap Hoff Hom Hsf. pose proof (year_day_range _ Hy) as Hr.
+    destruct (yo_of_dn_valid wn) as [Hvyo _]. fold (year_of_dn wn) in Hvyo. fold (ordinal_of_dn wn) in Hvyo.
+    unfold write_rfc3339, fields_wall. cbn [nd_date nd_time].
+    rewrite (df_year good DF dl wn Hg).
+    rewrite (df_month good DF dl wn Hg) by (unfold DAY_LO, DAY_HI; lia).
+    rewrite (df_day good DF dl wn Hg) by (unfold DAY_LO, DAY_HI; lia).
+    unfold year_of_dn, ordinal_of_dn in *. destruct (yo_of_dn wn) as [ly lo]. cbn [fst snd] in *.
+    assert (Hlo : 1 <= lo <= (if is_leap ly then 366 else 365)) by (unfold valid_yo, days_in_year in Hvyo; destruct (is_leap ly); lia).
+    pose proof (md_range (is_leap ly) lo Hlo) as (Hm & Hd & _).
+    destruct (md_of_ordinal (is_leap ly) lo) as [lm ld]. cbn [fst snd] in *.
+    change W3_YEAR_LO with 0. change W3_YEAR_HI with 9999.
+    replace ((0 <=? ly) && (ly <=? 9999)) with true by lia.
+    unfold div_i32, rem_i32. rewrite div_t_nz, rem_t_nz by lia.
+    rewrite Z.quot_div_nonneg, Z.rem_mod_nonneg by lia.
+    rewrite chk_in by (unfold in_i32, in_range, i32_min, i32_max; lia). cbn [bind].
+    replace (in_i32 (ly / 100)) with true by (unfold in_i32, in_range, i32_min, i32_max; lia). cbn [bind].
+    rewrite !as_u8_small by lia.
+    rewrite !write_hundreds_spec by lia. cbn [obind_ bind]. unfold write_char at 1. cbn [obind_ bind].
+    rewrite !write_hundreds_spec by lia. cbn [obind_ bind]. unfold write_char at 1. cbn [obind_ bind].
+    rewrite !write_hundreds_spec by lia. cbn [obind_ bind]. unfold write_char at 1. cbn [obind_ bind].
+    unfold Time.hms, Time.nanosecond, Time.urem, Time.udiv. cbn [Time.tsecs Time.tfrac].
+    rewrite !Z.quot_div_nonneg, !Z.rem_mod_nonneg by lia.
+    change W3_LEAP_NANO with 1000000000.
+    set (leap := 1000000000 <=? frac). set (sub := if leap then frac - 1000000000 else frac).
+    assert (Hsn : (if frac >=? 1000000000
+                   then let* s := add_u32 (ls mod 60) 1 in let* n := sub_u32 frac 1000000000 in Val (s, n)
+                   else Val (ls mod 60, frac)) = Val (ls mod 60 + (if leap then 1 else 0), sub)).
+    { subst sub leap. destruct (frac >=? 1000000000) eqn:E.
+      - replace (1000000000 <=? frac) with true by lia. unfold add_u32, sub_u32.
+        rewrite chk_in by (unfold in_u32, in_range, u32_max; lia). cbn [bind].
+        rewrite chk_in by (unfold in_u32, in_range, u32_max; lia). reflexivity.
+      - replace (1000000000 <=? frac) with false by lia. f_equal. f_equal. lia. }
+    rewrite Hsn. cbn [bind]. clear Hsn.
+    assert (Hsub : 0 <= sub < 1000000000) by (subst sub leap; destruct (1000000000 <=? frac) eqn:E; lia).
+    assert (Hsec : 0 <= ls mod 60 + (if leap then 1 else 0) <= 60) by (subst leap; destruct (1000000000 <=? frac) eqn:E; lia).
+    rewrite !as_u8_small by lia.
+    rewrite !write_hundreds_spec by lia. cbn [obind_ bind]. unfold write_char at 1. cbn [obind_ bind].
+    rewrite !write_hundreds_spec by lia. cbn [obind_ bind]. unfold write_char at 1. cbn [obind_ bind].
+    rewrite !write_hundreds_spec by lia. cbn [obind_ bind].
+    match goal with |- context [write_frac ?w W3_NANOS_WIDTH sub] =>
+      pose proof (ws_expr_ok w sf sub Hsub Hsf) as Hws end.
+    unfold ws_expr in Hws. rewrite Hws. clear Hws. cbn [bind obind_].
+    rewrite offset_format_rfc3339 by assumption.
+    unfold render. cbn [f_year f_month f_day f_sep f_hour f_minute f_second f_frac f_zone].
+    f_equal. f_equal. fold (zone_of off uz).
+    rewrite <- (four_split ly) by lia.
+    replace (ls / 60 / 60) with (ls / 3600) by lia.
+    rewrite <- !app_assoc. reflexivity.
+  Qed.
+
+End Writer.
